@@ -810,7 +810,13 @@ func schemaHasDefaultsInProperties(s *Schema) bool {
 func property(v reflect.Value, name string) reflect.Value {
 	switch v.Kind() {
 	case reflect.Map:
-		return v.MapIndex(reflect.ValueOf(name))
+		key := reflect.ValueOf(name)
+		// The map's key type may be a named string type (type K string): convert,
+		// since MapIndex requires the key to be assignable to the map's key type.
+		if kt := v.Type().Key(); kt != key.Type() && kt.Kind() == reflect.String {
+			key = key.Convert(kt)
+		}
+		return v.MapIndex(key)
 	case reflect.Struct:
 		props := structPropertiesOf(v.Type())
 		// Ignore nonexistent properties.
